@@ -163,6 +163,11 @@ def run(ctx):
                        "sink before any Poll::Pending return (Pending drops the locals; the sync twin has no such exit)")
     drained_value_rule(ctx, "C16.R4", ("noodles_", "<noodles_"), 3)
 
+    ctx.rule("C16.R6", "twin invariant kept by the async CRAM writer: flush() advances record_counter by the length of the very collection it "
+                       "handed to write_container, like the sync flush (C07.R5 applied to the async side)")
+    from .c07 import counter_collection_rule
+    counter_collection_rule(ctx, "C16.R6", ("noodles_cram::r#async::io::writer::Writer::<W>::flush",), 1)
+
     ctx.rule("C16.R5", "poll_seek state machine of the async BGZF reader: from its resting state every way to Ready(Ok) passes the arm that "
                        "seeks the inner reader (the sync seek has no memory of earlier requests)")
     state_machine_action_rule(ctx, "C16.R5", "noodles_bgzf::r#async::io::reader::Reader::<R>::poll_seek", "noodles_bgzf::r#async::io::reader::SeekState",
